@@ -117,6 +117,8 @@ fn main() {
         "run" => cmd_run(&args),
         "check" => cmd_check(&args),
         "replay" => cmd_replay(&args),
+        "lane" => cmd_lane(&args),
+        "context-replay" => cmd_context_replay(&args),
         "selftest" => {
             let seed = seed_from_env();
             let r1 = driver::selftest::<world_c15::C15>(seed, 5_000);
@@ -201,6 +203,71 @@ fn cmd_run(args: &Args) -> i32 {
     rep.exit
 }
 
+fn cmd_lane(args: &Args) -> i32 {
+    let (prop, out) = match (args.get("prop"), args.get("out")) {
+        (Some(p), Some(o)) => (p.to_string(), PathBuf::from(o)),
+        _ => return usage(),
+    };
+    let cfg = sim::LaneCfg {
+        base_seed: args.u64("seed").unwrap_or(DEFAULT_SEED),
+        runs: args.u64("runs").unwrap_or(0),
+        values_runs: args.u64("values-runs").unwrap_or(0),
+        keep_run_digests: args.flag("keep-run-digests"),
+        lane: args.u64("lane").unwrap_or(0),
+        lanes: args.u64("lanes").unwrap_or(sim::LANES).max(1),
+    };
+    let chunks = match prop.as_str() {
+        "C15" => sim::run_lane::<world_c15::C15>(&cfg),
+        "C19" => sim::run_lane::<world_c19::C19>(&cfg),
+        _ => return usage(),
+    };
+    match sim::write_lane(&out, &chunks) {
+        Ok(()) => 0,
+        Err(e) => {
+            eprintln!("HARNESS-ERROR: {}", e);
+            2
+        }
+    }
+}
+
+fn context_replay<W: World>(kind: &str, seed: u64, lanes: u64, from: u64, to: u64, machine: bool, path: Option<&Path>, expected: Option<&J>) -> i32 {
+    let (out, trace, _ops) = driver::run_context::<W>(kind, seed, lanes, from, to, !machine);
+    if !machine {
+        println!("re-creating the context in this fresh process: {} {}..={} (lanes {}), property {}", kind, from, to, lanes, W::id());
+        for l in &trace {
+            println!("{}", l);
+        }
+    }
+    match out.violation {
+        Some(v) => {
+            println!("REPLAY-RESULT class={} step={} digest={:#018x}", v.class, v.step, out.digest);
+            if !machine {
+                let same = expected.map(|e| e.get("class").and_then(|x| x.as_str()) == Some(v.class.as_str()) && e.get("step").and_then(|x| x.as_u64()) == Some(v.step as u64) && e.get("digest").and_then(|x| x.as_u64()) == Some(out.digest)).unwrap_or(false);
+                println!("reproduces the recorded violation exactly (class, step, digest): {}", if same { "yes" } else { "no" });
+                println!("detail: {}", v.detail);
+                if let Some(p) = path {
+                    println!("VIOLATION property={} replay={}", W::id(), p.display());
+                }
+            }
+            1
+        }
+        None => {
+            println!("REPLAY-RESULT no-violation digest={:#018x}", out.digest);
+            0
+        }
+    }
+}
+
+fn cmd_context_replay(args: &Args) -> i32 {
+    let kind = args.get("kind").unwrap_or("seeded").to_string();
+    let (seed, lanes, from, to) = (args.u64("seed").unwrap_or(DEFAULT_SEED), args.u64("lanes").unwrap_or(sim::LANES).max(1), args.u64("from").unwrap_or(0), args.u64("to").unwrap_or(0));
+    match args.get("prop") {
+        Some("C15") => context_replay::<world_c15::C15>(&kind, seed, lanes, from, to, args.flag("machine"), None, None),
+        Some("C19") => context_replay::<world_c19::C19>(&kind, seed, lanes, from, to, args.flag("machine"), None, None),
+        _ => usage(),
+    }
+}
+
 fn cmd_replay(args: &Args) -> i32 {
     let path = match args.pos.first() {
         Some(p) => PathBuf::from(p),
@@ -214,6 +281,23 @@ fn cmd_replay(args: &Args) -> i32 {
         }
     };
     let machine = args.flag("machine");
+    if file.get("mode").and_then(|x| x.as_str()) == Some("context") {
+        let c = match file.get("context") {
+            Some(c) => c,
+            None => {
+                eprintln!("HARNESS-ERROR: context replay file without a context");
+                return 2;
+            }
+        };
+        let g = |k: &str| c.get(k).and_then(|x| x.as_u64()).unwrap_or(0);
+        let kind = c.get("kind").and_then(|x| x.as_str()).unwrap_or("seeded").to_string();
+        let seed = file.get("verif_seed").and_then(|x| x.as_u64()).unwrap_or(DEFAULT_SEED);
+        return match file.get("property_id").and_then(|x| x.as_str()) {
+            Some("C15") => context_replay::<world_c15::C15>(&kind, seed, g("lanes").max(1), g("from"), g("to"), machine, Some(&path), file.get("expected")),
+            Some("C19") => context_replay::<world_c19::C19>(&kind, seed, g("lanes").max(1), g("from"), g("to"), machine, Some(&path), file.get("expected")),
+            _ => 2,
+        };
+    }
     match file.get("property_id").and_then(|x| x.as_str()) {
         Some("C15") => replay::<world_c15::C15>(&file, &path, machine),
         Some("C19") => replay::<world_c19::C19>(&file, &path, machine),
@@ -235,6 +319,7 @@ fn tier_runs(tier: &str) -> u64 {
 }
 
 fn spawn_run(bin: &Path, prop: &str, root: &Path, profile: &str, seed: u64, runs: u64, workers: usize, out: &Path, digests: Option<&Path>) -> Result<(i32, J, String), String> {
+    let _ = std::fs::remove_file(out);
     let mut cmd = std::process::Command::new(bin);
     cmd.arg("run").arg("--prop").arg(prop).arg("--root").arg(root).arg("--profile").arg(profile).arg("--seed").arg(seed.to_string()).arg("--runs").arg(runs.to_string()).arg("--workers").arg(workers.to_string()).arg("--out").arg(out);
     if let Some(d) = digests {
@@ -244,10 +329,10 @@ fn spawn_run(bin: &Path, prop: &str, root: &Path, profile: &str, seed: u64, runs
     let code = o.status.code().unwrap_or(2);
     let stdout = String::from_utf8_lossy(&o.stdout).to_string();
     let stderr = String::from_utf8_lossy(&o.stderr).to_string();
-    if code == 2 {
-        return Err(format!("{} run exited 2: {}", bin.display(), stderr));
-    }
-    let j = read_json(out)?;
+    let j = match read_json(out) {
+        Ok(j) => j,
+        Err(e) => return Err(format!("{} run exited {} without a readable report ({}): {}", bin.display(), code, e, stderr.trim())),
+    };
     Ok((code, j, stdout))
 }
 
@@ -271,6 +356,14 @@ fn cmd_check(args: &Args) -> i32 {
         eprintln!("HARNESS-ERROR: cannot create {}: {}", scratch.display(), e);
         return 2;
     }
+    // replay files of earlier runs of this property would only mislead
+    if let Ok(rd) = std::fs::read_dir(root.join("replays")) {
+        for e in rd.flatten() {
+            if e.file_name().to_string_lossy().starts_with(&format!("{}-", prop)) {
+                let _ = std::fs::remove_file(e.path());
+            }
+        }
+    }
     let seed = seed_from_env();
     let runs = tier_runs(&tier);
     let workers = workers_default();
@@ -282,11 +375,15 @@ fn cmd_check(args: &Args) -> i32 {
     let mut harness_errors: Vec<String> = Vec::new();
     let mut exit = 0;
 
-    // profile 1: this binary (simfast), in-process
-    let cfg = RunCfg { root: root.clone(), profile: "simfast".into(), seed, runs, workers, values_runs: 1_000_000, dump_digests: None, max_reported: 6 };
-    let primary = match dispatch_run(&prop, &cfg) {
-        Some(r) => r,
-        None => return usage(),
+    // profile 1: this binary (simfast), as a fresh process of its own
+    let out1 = scratch.join(format!("{}-{}-simfast.json", prop, tier));
+    let me = std::env::current_exe().unwrap_or_else(|_| PathBuf::from("ckc-sim"));
+    let primary = match spawn_run(&me, &prop, &root, "simfast", seed, runs, workers, &out1, None) {
+        Ok((code, j, _)) => Report { json: j, exit: code },
+        Err(e) => {
+            eprintln!("HARNESS-ERROR: {}", e);
+            return 2;
+        }
     };
     for l in primary.json.get("lines").and_then(|x| x.as_arr()).unwrap_or(&[]) {
         println!("{}", l.as_str().unwrap_or(""));
